@@ -100,6 +100,9 @@ class PropertyCheck:
     # whole-run validation against the composed monitor spec/Ropt.tla: only rejections whose clause belongs to this
     # property are reported here (a rejection with another property's clause is reported by that property's check)
     whole_run_clauses: tuple = ()
+    # further protocol specifications checked alongside (own MC instance, driver and trace validator); a rejection is
+    # reported here only when its clause starts with one of the given prefixes:  ((driver module, (prefix, ...)), ...)
+    attached: tuple = ()
 
 
 def _drive_one(args):
@@ -140,10 +143,15 @@ def run(check: PropertyCheck, driver_module: str, argv: list[str]) -> int:
 def _replay(check: PropertyCheck, driver_module: str, path: str) -> int:
     data = json.loads(Path(path).read_text())
     whole = "whole_run" in data["scenario"]
+    att = data["scenario"].get("attached") if isinstance(data["scenario"], dict) else None
+    module = "Ropt" if whole else check.trace_module
+    if att:
+        import importlib
+        driver_module, module = att, importlib.import_module(att).ATTACH["trace_module"]
     trace, features, err = _drive_one(("rv.drivers.ropt" if whole else driver_module, data["scenario"]))
     if err:
         raise MachineryError(err)
-    verdicts, _ = tlc.validate_traces("Ropt" if whole else check.trace_module, [trace])
+    verdicts, _ = tlc.validate_traces(module, [trace])
     v = verdicts[0]
     print(json.dumps({"scenario": data["scenario"], "trace": trace, "verdict": v}, indent=1)[:20000])
     if v["verdict"] == "REJECT":
@@ -260,6 +268,56 @@ def _run(check: PropertyCheck, driver_module: str, tier: str, seed: int, t0: flo
                     whole["foreign_rejections"] += 1
                     print(f"NOTE: whole-run monitor Ropt.tla rejected run {features.get('name')} at event {v['l']} with clause "
                           f"{v['clause']} (not a clause of {prop}; reported by the owning property's check, if any)")
+    # ---- attached protocol specifications
+    attached_info = []
+    for att_mod, prefixes in check.attached:
+        import importlib
+        att = importlib.import_module(att_mod).ATTACH
+        info = {"specification": att["spec"], "trace_module": att["trace_module"], "model_runs": [], "replayed": 0, "events": 0,
+                "foreign_rejections": 0}
+        asc = []
+        for spec in att["model_runs"](tier):
+            res = tlc.run_tlc(spec["module"], spec.get("cfg"), workers=spec.get("workers", 1), constants=spec.get("constants"),
+                              timeout=spec.get("timeout", 3600), heap=spec.get("heap", "3g"))
+            if spec.get("expect_violation"):
+                if res.violated != spec["expect_violation"]:
+                    raise MachineryError(f"{spec['module']}: expected TLC to find a violation of {spec['expect_violation']}, got {res.violated}")
+                info["model_runs"].append({"module": spec["module"], "constants": spec.get("constants", {}),
+                                           "as_is_counterexample": res.violated, "states": res.distinct})
+                continue
+            if res.violated:
+                raise MachineryError(f"specification {spec['module']} violates its own invariant {res.violated}:\n"
+                                     + "\n".join(res.stdout.splitlines()[-40:]))
+            states += res.distinct
+            transitions += res.generated
+            info["model_runs"].append({"module": spec["module"], "constants": spec.get("constants", {}), "states": res.distinct,
+                                       "emitted": len(res.emitted), "wall_s": round(res.wall_s, 2)})
+            stride = max(1, int(spec.get("stride", 1)))
+            asc += [s for i, s in enumerate(res.emitted) if (i + seed) % stride == 0]
+        asc += att["extra"](tier, seed) if att.get("extra") else []
+        if not asc:
+            raise MachineryError(f"attached specification {att['spec']}: no scenario to replay")
+        with ProcessPoolExecutor(max_workers=check.pool) as apool:
+            ares = list(apool.map(_drive_one, [(att_mod, s) for s in asc], chunksize=64))
+        for s, (trace, features, err) in zip(asc, ares):
+            if err:
+                raise MachineryError(f"driver failure of {att_mod} on {json.dumps(s)[:400]}:\n{err}")
+        averd, at = tlc.validate_traces(att["trace_module"], [r[0] for r in ares], chunk=att.get("chunk", 2000))
+        if at:
+            states += at.distinct
+            transitions += at.generated
+        for s, (trace, features, _), v in zip(asc, ares, averd):
+            info["replayed"] += 1
+            info["events"] += len(trace)
+            if v["verdict"] == "REJECT":
+                if any(v["clause"].startswith(px) for px in prefixes):
+                    violations.append((Case(scenario={"attached": att_mod, **s}, trace=trace, features=features, origin="tlc"), v))
+                else:
+                    info["foreign_rejections"] += 1
+                    if info["foreign_rejections"] <= 3:
+                        print(f"NOTE: {att['trace_module']} rejected a run at event {v['l']} with clause {v['clause']} "
+                              f"(not a clause of {prop}; reported by the owning property's check)")
+        attached_info.append(info)
     # ---- report
     rc = 0
     for f in findings:
@@ -293,6 +351,7 @@ def _run(check: PropertyCheck, driver_module: str, tier: str, seed: int, t0: flo
             "scenarios_from_tlc": n_tlc, "scenarios_random": n_cases - n_tlc,
             "trace_events": events, "model_runs": mc_info,
             "rejected_known": known, "rejected_new": len(violations), "whole_runs_validated_against_Ropt_tla": whole,
+            "attached_specifications": attached_info,
             "stage_wall_s": {"model_check": round(t_mc, 1), "replay": round(t_drive, 1), "trace_validation": round(t_val, 1)},
         },
         "assumptions": check.assumptions,
